@@ -7,6 +7,7 @@ import (
 	"testing"
 	"time"
 
+	ipfslog "berty.tech/go-ipfs-log"
 	"berty.tech/go-ipfs-log/identityprovider"
 	orbitdb "berty.tech/go-orbit-db"
 	"berty.tech/go-orbit-db/address"
@@ -14,7 +15,6 @@ import (
 	"berty.tech/go-orbit-db/stores/documentstore"
 	"berty.tech/go-orbit-db/stores/eventlogstore"
 	"berty.tech/go-orbit-db/stores/kvstore"
-	ipfslog "berty.tech/go-ipfs-log"
 	coreiface "github.com/ipfs/kubo/core/coreiface"
 	"pgregory.net/rapid"
 	"verif/harness/model"
